@@ -125,9 +125,13 @@ def scribble_all(x):
 
 def built_bytes_are_private(ctx, f, d, wit):
     """what a builder returned is the caller's: padding / patching it in place must not show up in a later build"""
+    import copy
+
+    d1, d2 = copy.deepcopy(d), copy.deepcopy(d)
     try:
-        first = f.lib_build(copy.deepcopy(d))
+        first = f.lib_build(d1)
     except Exception:  # noqa: BLE001
+        ctx.count("builder_refuses_dictionary")
         return
     snap = bytes(first)
     if isinstance(first, bytearray):
@@ -135,7 +139,7 @@ def built_bytes_are_private(ctx, f, d, wit):
         for i in range(min(len(first), 8)):
             first[i] ^= 0xFF
     try:
-        second = f.lib_build(copy.deepcopy(d))
+        second = f.lib_build(d2)
     except Exception as e:  # noqa: BLE001
         ctx.fail("C06:%s.second_build_raises.%s" % (f.name, type(e).__name__), "building again after the first result was edited in place raised %s" % e, wit, exc=e)
         return
@@ -368,6 +372,8 @@ def run_tids(shard, ctx, rng):
 
 
 def finalize(merged, tier):
+    if merged["counters"].get("builds_after_edit_of_earlier_output", 0) < 100:
+        merged["inconclusive"].append("the build / edit output / build again monitor hardly ran (%d)" % merged["counters"].get("builds_after_edit_of_earlier_output", 0))
     c = merged["counters"]
     for k in ("marshall_calls", "rebuilds", "rmw_cases", "designator_roundtrips", "transportid_roundtrips"):
         if c.get(k, 0) == 0:
